@@ -263,6 +263,22 @@ Definition run_c09 (a : list Z) : list Z :=
   | _ => [-99]
   end.
 
+(* ---- C19 per-format metadata: [fmt] -> [bits per pixel; native colour; channels; precision] *)
+Definition bpp_model (p : pixel_info) : N :=
+  match p with
+  | Fixed b => b * 8
+  | Block by_ bw bh => div_ceil (by_ * 8) (bw * bh)
+  | BiPlanar b1 b2 sx sy => b1 * 8 + div_ceil (b2 * 8) (sx * sy)
+  end.
+Definition run_c19 (a : list Z) : list Z :=
+  match a with
+  | [fmt] => match find_fmt fmt_table (zn fmt) with
+             | None => [-97]
+             | Some row => [nz (bpp_model (f_pi row)); nz (f_native row); nz (f_native row / 3); nz (f_native row mod 3)]
+             end
+  | _ => [-99]
+  end.
+
 Definition run_case (tag : Z) (args : list Z) : list Z :=
   match tag with
   | 20 => run_c20 args
@@ -273,6 +289,7 @@ Definition run_case (tag : Z) (args : list Z) : list Z :=
   | 10 => run_c10 args
   | 14 => run_c14 args
   | 9 => run_c09 args
+  | 19 => run_c19 args
   | _ => [-98]
   end.
 
